@@ -74,4 +74,9 @@ META = {
   "text": "States are produced with the tool's own field names and normalised by the tool's own start-up; each maintenance operation is cut after every target request and the recovery path (the real UpdateCheckpoint/GetCheckpoint) is run on a clone of the resulting keyspace. Fault enumeration level: the operations issue a few dozen requests at most.",
   "note": "The bidirectional mode-switch operation is covered by C14's machinery, not here. The tool iterates databases in Go map order, so the replay path repeats a case several times.",
  },
+ "C06": {
+  "technique": "property-based testing (rapid) over the product source state x stored position x cache pre-state x backend, real RedisInput against a PSYNC double; oracle = history-tree byte function + position/grant invariants on the readers handed to the output",
+  "text": "Every combination of the property's quantifier is drawn with concrete offsets around the interesting boundaries; the bytes of every history are a pure function of (history, offset) so a continuation from a wrong history or offset is detected on the first delivered byte. Exploration level.",
+  "note": "Up to 2 inconclusive cases per run are tolerated (a case in which the tool backs off for seconds before it hands a reader to the output). One open known finding (previous-id position beyond the switch offset validated against a current-id cache).",
+ },
 }
